@@ -1,4 +1,3 @@
-(* WIP *)
 (* C34 — the write path of one client connection.  Model of clients.go WritePacket's buffer logic
    (the four branches: pending-writes queue empty / non-empty x outbuf nil / non-nil, threshold
    ClientNetWriteBufferSize, flushOutbuf), of WriteLoop with the repair 4fc1aa5 (a queued packet that
@@ -189,7 +188,8 @@ Definition writebuf_engine (v : val) : val :=
           let code := wb_walk thr l in
           let buffered := existsb (fun o => existsb (fun n => 1 <? n) (so_chunks o)) l in
           let drops := existsb (fun o => negb (is_nil (so_dseq o))) l in
-          verdict code (if drops then tag "drops" else if buffered then tag "buffered" else tag "direct")
+          verdict code (if drops then (if buffered then tag "drops+buffered" else tag "drops")
+                        else if buffered then tag "buffered" else tag "direct")
                   (buffered || drops) []
       | None => bad_case
       end
